@@ -50,7 +50,7 @@ def _accesses(prog, eff, role):
             continue  # the bitmap's own words (C08)
         ptr = w[role]
         o = eff.origin(b, ptr)
-        rec = {"body": b, "pos": w["pos"], "ln": w["ln"], "kind": w["kind"], "origin": o, "count": w["count"], "via": "prim", "call": w["call"], "ptr": ptr}
+        rec = {"body": b, "pos": w["pos"], "ln": w["ln"], "kind": w["kind"], "origin": o, "count": w["count"], "via": "prim", "call": w["call"], "ptr": ptr, "elem": w.get("elem")}
         if o[0] in GUESTY:
             sites.append(rec)
         elif o[0] == 'param':
